@@ -785,13 +785,17 @@ func (a *typedArrayObject) isValidIntegerIndex(idx int) bool {
 	return false
 }
 
-func (a *typedArrayObject) _putIdx(idx int, v Value) {
+// toElement converts the value as TypedArraySetElement does (ToBigInt or ToNumber by the content type).
+func (a *typedArrayObject) toElement(v Value) Value {
 	switch a.typedArray.(type) {
 	case *bigInt64Array, *bigUint64Array:
-		v = toBigInt(v)
-	default:
-		v = v.ToNumber()
+		return toBigInt(v)
 	}
+	return v.ToNumber()
+}
+
+func (a *typedArrayObject) _putIdx(idx int, v Value) {
+	v = a.toElement(v)
 	if a.isValidIntegerIndex(idx) {
 		a.typedArray.set(idx+a.offset, v)
 	}
@@ -808,7 +812,7 @@ func (a *typedArrayObject) setOwnStr(p unistring.String, v Value, throw bool) bo
 		return true
 	}
 	if idx == 0 {
-		toNumeric(v) // make sure it throws
+		a.toElement(v) // not a valid integer index: the value is still converted (and it may throw)
 		return true
 	}
 	return a.baseObject.setOwnStr(p, v, throw)
